@@ -39,13 +39,13 @@ CHECKS["C09"] = dict(engine="merge", category="exploration",
 MW_NOTE = "Trusted: cooperative scheduler + instrumenter, testing/synctest fake clock, the per-middleware reference models in mw_engine.go (written from the statements); the downstream handler and the clients are harness stand-ins."
 CHECKS["C17"] = dict(engine="mw-limits", category="exploration",
    text="Seeded search over middleware stacks (any order of the limit middlewares, or the chain built from a NIP-11 document incl. nil document / no limitation block), message sizes around every limit, created_at around each window under a simulated clock with jumps, stalled readers and schedules: each client message must be forwarded pointer-identical and in order or answered by exactly one rejection of its type and not forwarded, as the per-middleware specification decides; all server messages pass identical and in order. Sampling, not proof.",
-   note=MW_NOTE, technique="deterministic simulation: seeded messages, clock jumps and schedules + per-message spec predicate", design="3/C17")
+   note=MW_NOTE, technique="deterministic simulation: seeded messages, clock jumps and schedules + per-message spec predicate; Go race detector on the serialised schedules (race phase)", design="3/C17")
 CHECKS["C18"] = dict(engine="mw-stateful", category="exploration",
    text="Same harness with one stateful middleware (subscription quota, receive-side or send-side unique filter) shared by 1-3 concurrent connections: every connection is judged against its own reference model (quota exactly; LRU window as a relation), plus the invariant that downstream never sees more than N ids open. Sampling, not proof.",
-   note=MW_NOTE, technique="deterministic simulation: seeded histories and interleavings + per-connection reference model", design="3/C18")
+   note=MW_NOTE, technique="deterministic simulation: seeded histories and interleavings + per-connection reference model; Go race detector on the serialised schedules (race phase)", design="3/C18")
 CHECKS["C19"] = dict(engine="mw-metrics", category="exploration",
    text="Same harness with the Prometheus middleware and 1-4 concurrent sessions: transparency as in C17, and at every sync point, at the end and after all sessions ended Gather() is compared with the harness truth (connection gauge = live sessions; per-type and per-kind counters exact; subscription gauge within the set of values reachable by linearizations of REQ/CLOSE/CLOSED consistent with their stamped intervals). Sampling, not proof.",
-   note=MW_NOTE, technique="deterministic simulation: seeded histories and interleavings + gauge/counter oracle at quiescent points", design="3/C19")
+   note=MW_NOTE, technique="deterministic simulation: seeded histories and interleavings + gauge/counter oracle at quiescent points; Go race detector on the serialised schedules (race phase)", design="3/C19")
 CHECKS["C06"] = dict(engine="sqlite-store", category="exploration",
    text="Seeded batch histories against the real SQLite store (go-sqlite3, in-memory and file databases, DELETE/WAL), inserted directly or through concurrent handler sessions whose interleaving decides the batch split; after every batch the match-everything answer is judged against the specification set built from the statement (newest per address, deletion regardless of arrival order, ephemeral never stored, all seven fields) and 1-4 random filter lists against it with the tie-tolerant answer checker. Fault-free configuration (C14 owns faults). Sampling, not proof.",
    note="Trusted: the reference predicate/answer checker and store specification (sqlite_engine.go); SQLite and database/sql are real code, not models.",
